@@ -483,6 +483,13 @@ func TestCheck(t *testing.T) {
 	if r.Replay != nil {
 		var c Case
 		r.DecodeReplay(&c)
+		if c.Carrier == "listener-wiring" {
+			k, d := executeListenerWiring(c.Ops[0].Kind)
+			if k != "inconclusive" && k != "setup" {
+				record(r, c, k, d, 1)
+			}
+			return
+		}
 		kind, detail, steps, _ := execute(t, c)
 		r.State(1)
 		record(r, c, kind, detail, steps)
@@ -636,6 +643,22 @@ func TestCheck(t *testing.T) {
 				idx++
 			}
 		}
+	}
+	// real-socket pass: the client's SocketListener
+	for _, mode := range listenerWiringModes() {
+		if r.Mine(idx) {
+			c := Case{Carrier: "listener-wiring", K: 2, Ops: []Op{{Kind: mode}}}
+			k, d := executeListenerWiring(mode)
+			if k == "inconclusive" || k == "setup" {
+				r.Inconclusive(c.String() + ": " + d)
+				r.Eval(1)
+			} else {
+				record(r, c, k, d, 1)
+				r.State(mc.Hash("listener-wiring", mode, k))
+				r.Nontrivial(mc.Hash(c.String()))
+			}
+		}
+		idx++
 	}
 done:
 	sort.Strings(notes)
